@@ -294,7 +294,25 @@ def shrinks(case):
 @st.composite
 def case_strategy(draw, tier):
     budget = 40 if tier == "quick" else 80
-    if draw(st.integers(0, 9)) < 5:
+    w = draw(st.integers(0, 11))
+    if w >= 10:
+        # assert-heavy programs of the oldest versions (version 2 has no assert op: an Assert is lowered to a branch around
+        # err, and its comment must not change that lowering)
+        conds = [["bin", "Lt", ["txn", "fee"], ["int", draw(st.sampled_from([0, 1, 1000, 10**9]))]], ["txn", "amount"], ["un", "Not", ["txn", "amount"]], ["int", 1], ["int", 0],
+                 ["bin", "Eq", ["txn", "first_valid"], ["int", 5]], ["nary", "And", [["txn", "fee"], ["int", 1]]]]
+        items = []
+        for _ in range(draw(st.integers(1, 5))):
+            k = draw(st.integers(0, 3))
+            cs = [conds[draw(st.integers(0, len(conds) - 1))] for _ in range(draw(st.sampled_from([1, 1, 1, 2, 3])))]
+            a = ["assert", cs, None]
+            if k == 0:
+                items.append(["if", conds[draw(st.integers(0, len(conds) - 1))], a, None, "then"])
+            elif k == 1:
+                items.append(["seq", [["pop", ["int", 3]], a]])
+            else:
+                items.append(a)
+        base = {"mode": draw(st.sampled_from(["app", "sig"])), "level": draw(st.sampled_from([2, 2, 3, 4])), "vars": {}, "routines": [], "main": ["seq", items + [["int", 1]]]}
+    elif w < 5:
         base = draw(gen.core_recipe(max_budget=budget))
     else:
         base = draw(gen_sub.sub_recipe(max_budget=budget + 10))
@@ -319,6 +337,8 @@ def case_strategy(draw, tier):
         an.kinds.append("nonce")
     lo = legal.min_version(base)
     vs = sorted({lo, draw(st.integers(lo, 10)), 10})
+    if w >= 10:
+        vs = sorted({2, 3, draw(st.integers(2, 10))})
     cfgs = []
     for v in vs:
         cfg = {"version": v}
